@@ -6,6 +6,7 @@ import (
 	"encoding/json"
 	"fmt"
 	"math/rand"
+	"net/netip"
 	"os"
 	"reflect"
 	"regexp"
@@ -57,6 +58,8 @@ type worker struct {
 	skip   map[int]map[string]bool
 	curK   int
 	frameT reflect.Type
+	extra  map[string]*packet.Session // sessions over the special NIC configurations (nil: NewSession refused it)
+	curCfg string
 	nt     int // what the current vector exercised: 1 real code executed, 2 value compared (C02), 4 alias checked (C16)
 }
 
@@ -104,6 +107,9 @@ func (w *worker) mm(v *vector, prop, what, view, g, exp, got string, input []byt
 	if w.seen[ck] > 25 {
 		w.cnt["x\t"+ck]++
 		return
+	}
+	if w.curCfg != "" {
+		got += " [session configuration " + w.curCfg + "]"
 	}
 	r := rec{T: "mm", ID: v.ID, K: w.curK, Prop: prop, What: what, View: view, G: g, Exp: exp, Got: got}
 	if w.hexed[ck] < 3 {
@@ -988,11 +994,61 @@ func observeViewOnly(name string, val reflect.Value) (valid bool) {
 	return out.IsNil()
 }
 
+// ---- sessions over special NIC configurations (spec: SessionConfigs) ---------------------------
+
+func nicFor(u *vh.Universe, cfg string) *packet.NICInfo {
+	n := u.NICInfo()
+	switch cfg {
+	case "no-router-mac":
+		n.RouterAddr4.MAC = nil
+	case "no-host-mac":
+		n.HostAddr4.MAC = nil
+	case "no-host-lla":
+		n.HostLLA = netip.Prefix{}
+	case "router-ip-invalid":
+		n.RouterAddr4.IP = netip.Addr{}
+	case "lan-32":
+		n.HomeLAN4 = netip.PrefixFrom(u.Cfg.HostIP, 32)
+	case "lan-0":
+		n.HomeLAN4 = netip.PrefixFrom(netip.IPv4Unspecified(), 0)
+	}
+	return n
+}
+
+// sessionFor returns the session of a configuration class, or nil when NewSession does not accept
+// the configuration on this tree (error or panic): such a configuration cannot reach Parse.
+func (w *worker) sessionFor(cfg string) *packet.Session {
+	if s, ok := w.extra[cfg]; ok {
+		return s
+	}
+	var s *packet.Session
+	reason := ""
+	func() {
+		defer func() {
+			if e := recover(); e != nil {
+				s, reason = nil, "NewSession panics: "+fmt.Sprint(e)
+			}
+		}()
+		var err error
+		s, err = packet.Config{Conn: vh.NewRecConn(), NICInfo: nicFor(w.u, cfg), ProbeDeadline: time.Minute,
+			OfflineDeadline: 2 * time.Minute, PurgeDeadline: 4 * time.Minute}.NewSession("")
+		if err != nil {
+			s, reason = nil, "NewSession: "+err.Error()
+		}
+	}()
+	if s == nil {
+		w.cnt["cfg_excluded_"+cfg]++
+		w.emit(rec{T: "drift", What: "config-excluded", View: cfg, Exp: "NewSession accepts the configuration", Got: reason})
+	}
+	w.extra[cfg] = s
+	return s
+}
+
 // ---- worker main --------------------------------------------------------------------------------
 
 func runWorker(vecs []*vector, tab *table, from, to, k int, seed int64, cfg int, ids map[int]bool, skip map[int]map[string]bool, deadline time.Duration, out *os.File) int {
 	w := &worker{seed: seed, k: k, tab: tab, out: bufio.NewWriterSize(out, 1<<16), cnt: map[string]int{}, hexed: map[string]int{}, seen: map[string]int{},
-		skip: skip, frameT: reflect.TypeOf(packet.Frame{})}
+		skip: skip, frameT: reflect.TypeOf(packet.Frame{}), extra: map[string]*packet.Session{}}
 	w.u = &vh.Universe{Cfg: vh.Configs[cfg%len(vh.Configs)]}
 	s, _, err := vh.NewSession(w.u, 1, 2, 4)
 	if err != nil {
@@ -1015,6 +1071,19 @@ func runWorker(vecs []*vector, tab *table, from, to, k int, seed int64, cfg int,
 		w.emit(rec{T: "@", ID: v.ID})
 		switch v.Fam {
 		case "parse":
+			if v.Cfg != "" && v.Cfg != "default" {
+				cs := w.sessionFor(v.Cfg)
+				if cs == nil {
+					w.cnt["vectors_cfg_skipped"]++
+					break
+				}
+				w.cnt["vectors_cfgparse"]++
+				base := w.s
+				w.s, w.curCfg = cs, v.Cfg
+				w.runParse(v)
+				w.s, w.curCfg = base, ""
+				break
+			}
 			w.cnt["vectors_parse"]++
 			w.runParse(v)
 		case "view":
